@@ -108,7 +108,8 @@ Section ID.
       end
     end.
 
-  Definition fuel_for (g : mg nat) : nat := 3 * List.length (nodes g) + 6.
+  (* enough for every valid query (Proofs/IdTotalP.v): lines 2 and 7 shrink the node set, lines 3 and 4 grow the treatment set *)
+  Definition fuel_for (g : mg nat) : nat := let n := List.length (nodes g) in n * (n + 1) + n + 1.
 
   (* identify_outcomes(graph, treatments, outcomes): Identification with the joint over the graph's nodes *)
   Definition identify_outcomes (g : mg nat) (X Y : list nat) : id_result :=
